@@ -155,6 +155,26 @@ func TestKnownRedundantHolder(t *testing.T) {
 	})
 }
 
+// TestKnownISNEmptyShare observes the second catalogued finding on the same structure: ISN deals
+// shareholder 1 an empty share and converting it to additive form over the (qualified) quorum
+// {1,2,3} panics.
+func TestKnownISNEmptyShare(t *testing.T) {
+	p := &policy.Policy{Family: policy.CNF, N: 3, MUS: []uint64{0b011, 0b101}}
+	c := newCase(t, "KnownISNEmptyShare", p, []uint64{1, 2, 3}, policy.Ordinal, 1)
+	empty, panicked := envs["k256"].ISNEmptyShareProbe(t, c, 0)
+	vlib.Known(knownISNEmpty, panicked, fmt.Sprintf("isn over cnf({1,2},{1,3}): shareholder 1 is dealt an empty share (observed empty=%v); Scheme.ConvertShareToAdditive(share of 1, quorum {1,2,3}) panics with index out of range in isn/share.go ToAdditive", empty))
+}
+
+// TestKnownTassaLowerDegree observes the third catalogued finding: hierarchy (2;{1,2}), every share
+// multiplied by 0 -- a sharing of 0 -- is refused by tassa.Reconstruct ("reconstruction failed").
+func TestKnownTassaLowerDegree(t *testing.T) {
+	all := []int{0, 1}
+	p := &policy.Policy{Family: policy.Hier, N: 2, Levels: []policy.Level{{T: 2, Members: all}}}
+	c := newCase(t, "KnownTassaLowerDegree", p, []uint64{1, 2}, policy.Ordinal, 1)
+	refused := envs["k256"].TassaZeroScaleProbe(t, c)
+	vlib.Known(knownTassaDegree, refused, "tassa over hierarchy (2;{1,2}): shares multiplied by the scalar 0 (a valid sharing of 0 by the zero polynomial) make Scheme.Reconstruct fail with 'reconstruction failed' because it demands degree exactly T_m-1; ScalarOp/Op are therefore not linear for combinations whose top coefficient vanishes")
+}
+
 // ---- drawn policies --------------------------------------------------------------------------------------
 
 // drawCase draws policy, ID regime, IDs, field and subsets. Hierarchical policies whose IDs fall
@@ -211,6 +231,9 @@ func drawSubsets(t *rapid.T, p *policy.Policy, n int) []uint64 {
 			i := uint(rapid.IntRange(0, p.N-1).Draw(t, "flip"))
 			add(s ^ 1<<i)
 		}
+	}
+	if p.N < 20 && uint64(n) > p.Full()+1 {
+		n = int(p.Full() + 1)
 	}
 	for len(out) < n {
 		add(rapid.Uint64Range(0, p.Full()).Draw(t, "subset"))
